@@ -47,13 +47,13 @@ func (i *BigInt) IsZero() bool {
 
 func (i *BigInt) IsEven() bool {
 	bigInt := i.ToGoBigInt()
-	result := bigInt.Mod(bigInt, big.NewInt(2))
+	result := (&big.Int{}).Mod(bigInt, big.NewInt(2))
 	return len(result.Bits()) == 0
 }
 
 func (i *BigInt) IsOdd() bool {
 	bigInt := i.ToGoBigInt()
-	result := bigInt.Mod(bigInt, big.NewInt(2))
+	result := (&big.Int{}).Mod(bigInt, big.NewInt(2))
 	return len(result.Bits()) != 0
 }
 
